@@ -1034,9 +1034,9 @@ func c14ProbeF31(c *Ctx) {
 func init() {
 	register("C14", func(c *Ctx) {
 		g := c14Gen{c}
-		nRandom, nTimed, exLen, maxLen := 1500, 120, 3, 12
+		nRandom, nTimed, exLen, maxLen, nCx := 1500, 120, 3, 12, 1200
 		if c.Thorough() {
-			nRandom, nTimed, exLen, maxLen = 30000, 1500, 4, 16
+			nRandom, nTimed, exLen, maxLen, nCx = 30000, 1500, 4, 16, 30000
 		}
 		c.Rule = fmt.Sprintf("histories on the real NewCachedEnforcer and NewSyncedCachedEnforcer (basic ACL model, string adapter with a fixed text, auto-save off): "+
 			"(a) the witnesses of the repaired findings F22 F30 F23 F33 and of lifetime expiry; (b) ALL histories of length <= %d over a 13-operation alphabet "+
@@ -1045,7 +1045,13 @@ func init() {
 			"AddPolicies / RemovePolicies (rules of mixed lengths) / EnableCache, request fields from a universe containing $, $$, a$, $a, the empty string and the EnforceContext key text, "+
 			"requests of length 2-4 with EnforceContext, other CacheableParam and non-cacheable parameters; (d) %d timed histories per wrapper with SetExpireTime (30 ms, 0, negative, 10 s) and real sleeps of 80 ms, "+
 			"the measured clock passed to the model, cases whose timing comes within ttl/2 of an expiry instant dropped. Every history ends with one wrapper Enforce per focus tuple; after every step the embedded enforcer is asked a probe set. "+
-			"Histories in which two different tuples have one cache key (F21) are kept out. Non-trivial = some cacheable request is enforced at least twice (a potential cache hit); distinct by case id.", exLen, nRandom, maxLen, nTimed)
+			"(e) on a second model with the sections r r2 / p p2 / e e2 / m m2 m3 m4 m5 m6 (two stored rule sets, matchers and effects that decide differently), requests whose first argument is a casbin.EnforceContext: "+
+			"every one of the 12 deciding contexts against each context that differs from it in exactly ONE of RType / PType / EType / MType (existing and missing sections) and against contexts whose names are the same characters cut differently "+
+			"(merged names, names containing '-', '}', '$'), same request strings, both orders, asked twice; every deciding context mixed with the plain request of the same strings around RemovePolicy / AddPolicy / RemoveNamedPolicy(p2) / InvalidateCache / LoadPolicy; "+
+			"%d random histories per wrapper over Enforce (contexts in front / elsewhere / twice, *EnforceContext and another CacheableParam, int / struct / float / bool / nil / named string / []byte values) and the mutators of p and p2. "+
+			"Direct predicate: every wrapper answer is compared with the embedded enforcer (an uncached twin in the same state) whenever a theorem says they agree: request without context after listed invalidating operations only (C14_transparent_acl_general, C14_transparent_cx), "+
+			"or ANY request while no mutator was called since the cache was last empty (C14_transparent_quiet). "+
+			"Histories in which two different tuples have one cache key (F21 and its variants for the context text) are kept out. Non-trivial = some cacheable request is enforced at least twice (a potential cache hit); distinct by case id.", exLen, nRandom, maxLen, nTimed, nCx)
 		var cases []*c14Case
 		cases = append(cases, c14Witnesses()...)
 		cases = append(cases, c14Exhaustive(exLen)...)
@@ -1059,6 +1065,7 @@ func init() {
 				cases = append(cases, g.random(fmt.Sprintf("c14.t.%d.%v", i, B(synced)), synced, maxLen, true))
 			}
 		}
+		cases = append(cases, c14CxCases(g, nCx, maxLen)...)
 		// run: untimed cases sequentially, timed ones on a small pool (they mostly sleep)
 		results := make([]*c14Result, len(cases))
 		var wg sync.WaitGroup
